@@ -14,6 +14,7 @@ import (
 	"strings"
 
 	z "github.com/Oudwins/zog"
+	"github.com/Oudwins/zog/conf"
 	"github.com/Oudwins/zog/parsers/zjson"
 	"github.com/Oudwins/zog/zhttp"
 
@@ -38,6 +39,10 @@ func hasMultiFieldStruct(s *Skel) bool {
 	}
 	return false
 }
+
+// c09Messages: compare (path, code, type, message) instead of (key, path, code, type); set by the "messages" items,
+// which install a process-wide formatter whose text names the issue's own path and code.
+var c09Messages bool
 
 func c09Scenario(a *Alpha, ns NamedSkel, focus []string, elems int) mc.Scenario {
 	fm := focusMap(focus)
@@ -81,6 +86,10 @@ func c09Scenario(a *Alpha, ns NamedSkel, focus []string, elems int) mc.Scenario 
 			return out
 		}
 		bi, pi := base.Obs.IssueStrings(), perm.Obs.IssueStrings()
+		if c09Messages {
+			// under a formatter whose text depends on the issue itself, the messages belong to the comparison
+			bi, pi = issueTuples(base.Obs), issueTuples(perm.Obs)
+		}
 		if !eqStrings(bi, pi) {
 			note()
 			out.Viol = append(out.Viol, &mc.Violation{
@@ -166,7 +175,7 @@ func c09InputKeysScenario(x *mc.X) *mc.Outcome {
 func init() {
 	Register(&Prop{
 		ID:    "C09",
-		Rule:  "one execution = one core case (skeletons with a ≥2-field struct, ≤k focus units over full alphabets, both modes) run twice on the real code: canonical sorted visit order vs. the permutation chosen at every struct visit (all permutations enumerated, jointly across nesting levels and slice elements); plus input documents holding any subset of keys that differ only in letter case / blanks (top level and nested) through Go map, zjson and zhttp JSON, sorted order vs every permutation at every hooked range-over-map site; non-trivial = non-identity permutation on a deviating case; distinct = distinct (skeleton, mode, issue multiset, permutation vector)",
+		Rule:  "one execution = one core case (skeletons with a ≥2-field struct, ≤k focus units over full alphabets, both modes) run twice on the real code: canonical sorted visit order vs. the permutation chosen at every struct visit (all permutations enumerated, jointly across nesting levels and slice elements); plus the two-field shape grammar again under an installed formatter whose text names the issue's own path and code (messages are then part of the comparison); plus input documents holding any subset of keys that differ only in letter case / blanks (top level and nested) through Go map, zjson and zhttp JSON, sorted order vs every permutation at every hooked range-over-map site; non-trivial = non-identity permutation on a deviating case; distinct = distinct (skeleton, mode, issue multiset, permutation vector)",
 		Floor: 50,
 		Bound: func(tier string) string {
 			k, e := coreK(tier)
@@ -182,6 +191,22 @@ func init() {
 				items = append(items, it)
 			}
 			items = append(items, Item{Name: "input-keys", MaxDevs: -1, Run: c09InputKeysScenario})
+			// every message is the formatter's answer for its own issue, whatever was formatted just before it:
+			// the shape grammar and the small catalogue skeletons again, under a formatter that names path and code
+			for _, it := range coreItemsFiltered(tier, c09Scenario, func(a *Alpha) { a.Lite = true }, []int{0, 1}, 2, func(ns NamedSkel) bool {
+				return hasMultiFieldStruct(ns.S) && (strings.HasPrefix(ns.Name, "G2[") || ns.Name == "S2" || ns.Name == "S3")
+			}) {
+				inner := it.Run
+				it.Name = "messages/" + it.Name
+				it.Run = func(x *mc.X) *mc.Outcome {
+					saved := conf.IssueFormatter
+					conf.IssueFormatter = func(e *z.ZogIssue, c z.Ctx) { e.SetMessage(e.Path + " -> " + e.Code) }
+					c09Messages = true
+					defer func() { conf.IssueFormatter = saved; c09Messages = false }()
+					return inner(x)
+				}
+				items = append(items, it)
+			}
 			return items
 		},
 	})
